@@ -300,6 +300,11 @@ func (gb *gcpBalancer) UpdateClientConnState(ccs balancer.ClientConnState) error
 		scRef.subConn.UpdateAddresses(addrs)
 		scRef.subConn.Connect()
 	}
+	// Replacement SubConns of refreshes in progress will join the pool.
+	for sc := range gb.refreshingScRefs {
+		sc.UpdateAddresses(addrs)
+		sc.Connect()
+	}
 
 	return nil
 }
